@@ -66,6 +66,10 @@ def worker(rank, world, initfile, outdir, seed, steps):
     import torch
     import torch.distributed as dist
     torch.set_num_threads(1)
+    # a throw-away module built BEFORE the process group exists (a model assembled early): whatever the library caches about "am I distributed" at
+    # that moment must not switch off the synchronisation of modules built with sync_codebook=True afterwards
+    from vector_quantize_pytorch import VectorQuantize as _ProbeVQ
+    _ProbeVQ(dim=2, codebook_size=2)(torch.randn(1, 2, 2))
     dist.init_process_group('gloo', init_method='file://' + initfile, rank=rank, world_size=world)
     out = {}
     for si, name in enumerate(scenarios()):
